@@ -14,9 +14,9 @@ CORE = {
                 fam_q=[('core', 200), ('merge', 80), ('dup', 4)], fam_t=[('core', 4000), ('merge', 1500), ('memmerge', 500), ('dup', 16)]),
     'C02': dict(prefixes=['C02_'], mc_q=[('MC_durable_q', 300)], mc_t=[('MC_durable', 1500)],
                 fam_q=[('images', 32), ('memmerge', 48), ('core', 64)], fam_t=[('images', 400), ('memmerge', 600), ('crash2', 200), ('core', 1000)]),
-    'C03': dict(prefixes=['C03_', 'C02_acked_lost', 'C02_AckedDurable'],   # '... durability and this property keep holding across any number of further crashes'
+    'C03': dict(prefixes=['C03_', 'C02_acked_lost', 'C02_AckedDurable', 'C11_reopen_after_close_failed'],   # '... durability and this property keep holding across any number of further crashes'
                 mc_q=[('MC_crash2_q', 300), ('MC_durable_q', 300)], mc_t=[('MC_durable', 1500), ('MC_crash2_t', 1500)],
-                fam_q=[('images', 24), ('crash2', 24), ('memmerge', 32)], fam_t=[('images', 400), ('crash2', 400), ('memmerge', 600)]),
+                fam_q=[('images', 24), ('crash2', 24), ('memmerge', 32), ('mergeimg', 12)], fam_t=[('images', 400), ('crash2', 400), ('memmerge', 600), ('mergeimg', 200)]),
     # C04: '... never faults, even after the files backing it were superseded' -> removal clauses about files in use count too
     'C04': dict(prefixes=['C04_', 'C11_removed_file_in_use', 'C11_OpenHandlesHaveFiles'], mc_q=[('MC_readers_q', 300)], mc_t=[('MC_readers_t', 1500)],
                 fam_q=[('readers', 240), ('faults', 96), ('free', 48)], fam_t=[('readers', 4000), ('faults', 1500), ('free', 1000)]),
@@ -27,11 +27,11 @@ CORE = {
                 fam_q=[('merge', 200), ('memmerge', 64)], fam_t=[('merge', 4000), ('memmerge', 1000)]),
     # C11: '... removal never disturbs an open Reader'
     'C11': dict(prefixes=['C11_', 'C04_reader_changed', 'C04_NoUseAfterClose'], mc_q=[('MC_files_q', 300)], mc_t=[('MC_files_t', 1500)],
-                fam_q=[('files', 240)], fam_t=[('files', 4000)]),
+                fam_q=[('files', 240), ('filefaults', 64)], fam_t=[('files', 4000), ('filefaults', 1000)]),
     'C14': dict(prefixes=['C14_', 'C02_', 'C03_', 'C01_RootIsAbstract', 'C04_'], mc_q=[('MC_faults_q', 300)], mc_t=[('MC_faults_t', 1500)],
                 fam_q=[('faults', 160)], fam_t=[('faults', 3000)]),
     # C15 also counts handle clauses: reference counts corrupted by a race show as handles closed twice / leaked
-    'C15': dict(prefixes=['C15_', 'C04_reader_changed', 'C11_handle_closed_twice', 'C11_HandlesClosedOnce', 'C11_handle_leaked'], mc_q=[('MC_close_q', 300)], mc_t=[('MC_close_t', 1500), ('MC_live', 1500)],
+    'C15': dict(prefixes=['C15_', 'C04_reader_changed', 'C11_handle_closed_twice', 'C11_HandlesClosedOnce', 'C11_handle_leaked', 'C11_lock_not_released'], mc_q=[('MC_close_q', 300)], mc_t=[('MC_close_t', 1500), ('MC_live', 1500)],
                 fam_q=[('close', 200), ('free', 96)], fam_t=[('close', 4000), ('free', 2000)]),
 }
 
